@@ -145,7 +145,9 @@ def _(c):
                       opt_int(s.cur.original_dev) == z3.If(n == 0, OptInt.none, OptInt.some(FS.fs_dev(s.path))),
                       z3.Implies(n > 0, s.path != STR('')))
 
-    c.loop(1, header='while True', ghosts={'n': Int, 'anyign': Bool},
+    # m.load() rewrites the one ManifestFile object on every level that has a Manifest: its fields are arbitrary at the loop
+    # head (on a level without a Manifest they are whatever the last level with one left behind)
+    c.loop(1, header='while True', ghosts={'n': Int, 'anyign': Bool}, havoc_fields=['entries', 'openpgp_signed', 'openpgp_signature'],
            ghost_init=lambda s: {'n': z3.IntVal(0), 'anyign': z3.BoolVal(False)}, ghost_update=ghost_update,
            inv=[('levels-walk-upward', inv_core),
                 ('remembers-the-last-manifest-passed',
